@@ -129,6 +129,64 @@ var Families = map[string]Family{
 		}
 		return sb.String()
 	},
+	// searching own lists and sets of deeply nested values: every comparison walks
+	// nine levels, so two traversals sharing one depth counter exceed the maximum
+	"search": func(seed int64) string {
+		var r = rand.New(rand.NewSource(seed))
+		var deep = func(leaf int) any {
+			var v any = int64(leaf)
+			for i := 0; i < 9; i++ {
+				v = []any{v}
+			}
+			return v
+		}
+		var list = col.List[any](notation).Make()
+		var set = col.Set[any](notation).Make()
+		for i := 0; i < 12; i++ {
+			var x = r.Intn(9)
+			list.AppendValue(deep(x))
+			set.AddValue(deep(x))
+		}
+		var probe = col.List[any](notation).MakeFromArray([]any{deep(3), deep(11)})
+		var sb strings.Builder
+		for i := 0; i < 40; i++ {
+			var v = deep(r.Intn(12))
+			sb.WriteString(fmt.Sprint(list.GetIndex(v), list.ContainsValue(v), set.GetIndex(v), set.ContainsValue(v),
+				list.ContainsAny(probe), list.ContainsAll(probe), set.ContainsAny(probe), " "))
+		}
+		return sb.String()
+	},
+	// own notation: parsing documents longer than the token queue, also wrong ones;
+	// own iterators in both directions
+	"parseiter": func(seed int64) string {
+		var r = rand.New(rand.NewSource(seed))
+		var n = cdc.Notation().Make()
+		var sb strings.Builder
+		for i := 0; i < 12; i++ {
+			var items []string
+			for j := 0; j < 18+r.Intn(20); j++ {
+				items = append(items, fmt.Sprint(r.Intn(100)))
+			}
+			var text = "[" + strings.Join(items, ", ") + "](List)"
+			if i%4 == 3 {
+				text = strings.Replace(text, ", ", ", ]", 1) // a syntax error early in a long document
+			}
+			sb.WriteString(guard(func() string {
+				var l = n.ParseSource(text).(col.ListLike[any])
+				var it = l.GetIterator()
+				var out []any
+				for it.HasNext() {
+					out = append(out, it.GetNext())
+				}
+				it.ToSlot(-3)
+				for it.HasPrevious() {
+					out = append(out, it.GetPrevious())
+				}
+				return fmt.Sprint(out, it.GetSlot())
+			}))
+		}
+		return sb.String()
+	},
 	// build / mutate / search / iterate on own collections, logged as a World trace
 	"mutate": func(seed int64) string {
 		var in = world.NewInterp(world.IntCodec(), world.StringCodec())
